@@ -79,17 +79,28 @@ Definition nth_topo (topos : list (list atom)) (i : nat) : list atom := nth i to
 Definition out_of_model (o : outcome) : bool :=
   match o with OutOfDomain => true | EvalErr OutOfModel => true | _ => false end.
 
+(* both single-literal variants at once: they can differ only when the parse tree is a single literal
+   (Proofs.select_pair_correct: this is exactly (select_tokens false, select_tokens true)) *)
+Definition select_pair (cfg : config) (atoms : list atom) (ts : list token) : outcome * outcome :=
+  let oe := parse_all cfg ts in
+  match oe with
+  | Some (ELit _) => (run_compiled cfg atoms (compile_parsed cfg false oe), run_compiled cfg atoms (compile_parsed cfg true oe))
+  | _ => let o := run_compiled cfg atoms (compile_parsed cfg false oe) in (o, o)
+  end.
+
 Definition case_code (cfg : config) (topos : list (list atom)) (c : nat * string * outcome) : nat :=
   let '(ti, s, impl) := c in
   let atoms := nth_topo topos ti in
-  let a := select_str cfg false atoms s in
-  let b := select_str cfg true atoms s in
   let cc := conventional cfg in
-  let c1 := select_str cc false atoms s in
-  let c2 := select_str cc true atoms s in
-  (if outcome_eqb a impl then 0 else 1) + (if outcome_eqb b impl then 0 else 2)
-  + (if outcome_eqb c1 impl || outcome_eqb c2 impl then 0 else 4)
-  + (if out_of_model a || out_of_model c1 then 8 else 0).
+  match lex cfg s, lex cc s with
+  | Some ts, Some ts' =>
+      let '(a, b) := select_pair cfg atoms ts in
+      let '(c1, c2) := select_pair cc atoms ts' in
+      (if outcome_eqb a impl then 0 else 1) + (if outcome_eqb b impl then 0 else 2)
+      + (if outcome_eqb c1 impl || outcome_eqb c2 impl then 0 else 4)
+      + (if out_of_model a || out_of_model c1 then 8 else 0)
+  | _, _ => 15
+  end.
 
 Definition codes (cfg : config) (topos : list (list atom)) (cases : list (nat * (nat * string * outcome)))
   : list (nat * nat) :=
@@ -170,9 +181,12 @@ Definition tables_as_found (cfg : config) : bool :=
   && list_eqb level_eqb (levels cfg) ref_levels
   && list_eqb (fun p q => String.eqb (fst p) (fst q) && binsem_eqb (snd p) (snd q)) (bin_sem cfg) ref_bin_sem.
 
-(* the configuration "as documented": reference keyword and operator tables, residue tables of cfg *)
+Definition levels_as_found (cfg : config) : bool := list_eqb level_eqb (levels cfg) ref_levels.
+
+(* the configuration "as documented": reference keyword and operator MEANINGS; the level structure (which is not
+   documented) and the residue tables of cfg *)
 Definition documented (cfg : config) : config :=
-  {| sel_kws := ref_sel_kws; levels := ref_levels; bin_sem := ref_bin_sem; py_kwlist := py_kwlist cfg;
+  {| sel_kws := ref_sel_kws; levels := levels cfg; bin_sem := ref_bin_sem; py_kwlist := py_kwlist cfg;
      amino_codes := amino_codes cfg; water_names := water_names cfg |}.
 
 (* code 16: differs from the documented tables under both operator orders and both single-literal tests *)
